@@ -145,6 +145,11 @@ def units(tier, seed):
     for mode in ("single-max", "single-min", "multi-FT", "multi-boolT", "multi-agg"):
         us.append({"kind": "aggregate", "mode": mode})
     us.append({"kind": "trackers"})
+    # a multi-objective problem that learns its number of objectives at its first evaluation (minimize given as one bool)
+    for ev in ("seq", "vpar"):
+        for n in (1, 2, 3):
+            for mini in (False, True):
+                us.append({"kind": "lazy-multi", "evaluator": ev, "n": n, "minimize": mini})
     # Population objects over two problems / trackers sharing individuals, in every order of three constructions
     for n in (1, 2, 3):
         for pop in itertools.product(["new", "has_p", "has_q", "stamped"], repeat=n):
@@ -578,7 +583,69 @@ def run_populations(unit) -> UnitResult:
     return r
 
 
+def run_lazy_multi(unit) -> UnitResult:
+    import pathos.multiprocessing as pm
+
+    r = UnitResult()
+    tmp = tempfile.mkdtemp(prefix="verif_c13_")
+    real_pool = pm.ProcessingPool
+    try:
+        def run(src):
+            path = os.path.join(tmp, "m.log")
+            if os.path.exists(path):
+                os.remove(path)
+            base = make_ff(path)
+            problem = MultiObjectiveProblem(unit["minimize"], lambda p: [base(p), 1.0])
+            rep = StubRepresentation(3)
+            inds = [Individual(rep._new(i), rep) for i in range(unit["n"])]
+            if unit["evaluator"] == "seq":
+                ev = SequentialEvaluator()
+            else:
+                ev = ParallelEvaluator()
+                VirtualPool.source = src
+                pm.ProcessingPool = VirtualPool
+            ev.evaluate(problem, inds)
+            first = (ev.number_of_evaluations(), len(read_log(path)))
+            ev.evaluate(problem, inds + [Individual(rep._new(3), rep)])
+            return inds, problem, first, (ev.number_of_evaluations(), len(read_log(path))), read_log(path)
+
+        st = ExploreStats()
+        for ex in explore(run, max_execs=200, stats=st, horizon=100):
+            r.executions += 1
+            w = {"unit": unit, "choices": list(ex.choices)}
+            feat = {"evaluator": unit["evaluator"], "lazy_multi": True}
+            site = "SequentialEvaluator" if unit["evaluator"] == "seq" else "ParallelEvaluator"
+            if ex.exc is not None:
+                r.add_violation(Violation(PROP, site + ".evaluate", "raised", dict(feat, exc=type(ex.exc).__name__), w, f"lazy multi-objective problem: {exc_brief(ex.exc)}"))
+                continue
+            inds, problem, first, second, log = ex.result
+            r.count("histories")
+            r.nontrivial += 1
+            r.count("invocation_counts_checked")
+            n = unit["n"]
+            if first != (n, n) or second != (n + 1, n + 1) or sorted(log) != sorted(list(range(n)) + [3]):
+                r.add_violation(Violation(PROP, site + ".number_of_evaluations", "counter-differs-from-invocations", feat, w,
+                                          f"{unit['evaluator']}, multi-objective problem with minimize={unit['minimize']} (one bool), {n} new individuals then one more: "
+                                          f"(counter, invocations) = {first} then {second}; invoked on {log}"))
+            for i in inds:
+                want = [TABLE[i.genotype.v % 4], 1.0]
+                f = i.get_fitness(problem)
+                agg = -sum(want) if unit["minimize"] else sum(want)
+                if list(f.fitness_components) != want or abs(f.maximizing_aggregate - agg) > 1e-9:
+                    r.add_violation(Violation(PROP, site + ".evaluate", "wrong-fitness-or-pairing", feat, w,
+                                              f"lazy multi-objective problem: individual {i.genotype.v}: {f}, expected components {want} aggregate {agg}"))
+        r.states = st.executions
+    finally:
+        pm.ProcessingPool = real_pool
+        import shutil
+
+        shutil.rmtree(tmp, ignore_errors=True)
+    return r
+
+
 def run_unit(unit) -> UnitResult:
+    if unit["kind"] == "lazy-multi":
+        return run_lazy_multi(unit)
     if unit["kind"] == "populations":
         return run_populations(unit)
     return {"pop": run_pop, "aggregate": run_aggregate, "gp": run_gp, "trackers": run_trackers}[unit["kind"]](unit)
